@@ -139,6 +139,8 @@ def _conv(prop, base):
         union_checks.union_battery(v, prop, 50 * SIZES[tier], b.t1_summary)
         if prop in ("C01", "C02", "C03"):
             litenum_checks.litenum_battery(v, prop, 40 * SIZES[tier])
+        if prop in ("C01", "C03"):
+            overrides_checks.namedtuple_battery(v, prop, 10 * SIZES[tier])
         if prop == "C03":
             copyopt_checks.copyopt_battery(v, prop, 60 * SIZES[tier])
             overrides_checks.overrides_battery(v, 32)
